@@ -105,18 +105,73 @@ pub fn rests(h: &crate::harvest::Harvest, tier: Tier) -> Vec<String> {
     v
 }
 
+fn boundary_product(h: &crate::harvest::Harvest, tier: Tier) -> (Vec<String>, Vec<String>) {
+    let mut last_words: BTreeSet<String> = BTreeSet::new();
+    for w in [
+        "Mr", "Mrs", "Ms", "Dr", "Prof", "St", "Jr", "Sr", "Inc", "Ltd", "Co", "Corp", "Dept", "approx", "est", "Fig", "cf", "ca", "vs", "etc", "e.g", "i.e", "No", "a.m", "p.m", "U.S", "Ph.D",
+        "et al", "1st", "3", "0x1F", "isn't", "I", "a", "an", "the", "then", "it", "é", "😀", "b@c.co",
+    ] {
+        last_words.insert(w.to_string());
+        last_words.insert(w.to_lowercase());
+    }
+    for w in h.vocab.iter().take(tier.pick(500, 100000)) {
+        last_words.insert(w.clone());
+    }
+    let mut ps = vec![];
+    for w in &last_words {
+        if has_dquote(w) {
+            continue;
+        }
+        ps.push(format!("He lives on Main {w}.\n\n"));
+        if tier == Tier::Thorough || ps.len() % 4 == 0 {
+            ps.push(format!("Is it {w}?\n\n"));
+            ps.push(format!("We saw the {w}!\n\n"));
+            ps.push(format!("Then came {w}...\n\n"));
+        }
+    }
+    let ds: Vec<String> = [
+        "near the park he sat down. then he left.",
+        "the cat sat on the mat. it was happy.",
+        "  indented line here. Yes it is.",
+        "\tTabbed start of a line. Yes.",
+        "and then we left. we were tired.",
+        "a apple fell down. An pear fell too.",
+        "the the dog ran home. he ran fast.",
+        "1st we go there. 2nd we stay here.",
+        "i think so. i really do.",
+        "...and so on it goes. ok then.",
+        "teh start is here. teh end is there.",
+        "main St. is near. it is long.",
+        "Of course. of course not.",
+        "it's fine; its owner left. its over.",
+        ", he said. and left.",
+        "He lives on Main. he is happy.",
+    ]
+    .iter()
+    .map(|s| s.to_string())
+    .collect();
+    (ps, ds)
+}
+
 pub fn run(tier: Tier) -> i32 {
     let mut report = Report::new("C12", tier, "exploration");
     report.set("rule", "all pairs (P, D): P = quote-free harvested sentence ending in a terminator + blank line (plus condensing-heavy sentences), D = all strings over the plain alphabet up to a length bound, every seed, seed prefixes and word/condensing-trigger pairs; oracle: lints(P+D) == lints(P) (+) shift(lints(D), |P|) as multisets of (span, kind, message, suggestions, priority), all rules on, chunk cache defeated for every call; non-trivial = the pair has at least one lint on each side of the break");
     let h = crate::harvest::harvest();
-    let ps = paragraphs(&h, tier);
-    let ds = rests(&h, tier);
-    report.set("paragraphs", ps.len() as u64);
-    report.set("rests", ds.len() as u64);
-    if ps.len() < 60 || ds.len() < 500 {
-        report.machinery(format!("pair sets too small: {} x {}", ps.len(), ds.len()));
+    let ps_main = paragraphs(&h, tier);
+    let ds_main = rests(&h, tier);
+    report.set("paragraphs", ps_main.len() as u64);
+    report.set("rests", ds_main.len() as u64);
+    if ps_main.len() < 60 || ds_main.len() < 500 {
+        report.machinery(format!("pair sets too small: {} x {}", ps_main.len(), ds_main.len()));
     }
+    // second product: every way a first paragraph can END (each trigger word and abbreviation as
+    // its last word, each terminator) x rests whose very BEGINNING is judged by a sentence-start
+    // or paragraph-start sensitive rule
+    let (ps_edge, ds_edge) = boundary_product(&h, tier);
+    report.set("boundary_paragraph_endings", ps_edge.len() as u64);
+    report.set("boundary_rest_beginnings", ds_edge.len() as u64);
     let curated = FstDictionary::curated();
+    for (ps, ds) in [(ps_main, ds_main), (ps_edge, ds_edge)] {
     // lints of the singles
     let single = |texts: &Vec<String>| -> Vec<Option<Vec<Lint>>> {
         let parts = par_chunks(texts.len() as u64, 200, ncpu(), |s, e| {
@@ -237,6 +292,7 @@ pub fn run(tier: Tier) -> i32 {
     }
     report.sample(json!({"engine":"E1","paragraph": ps.get(10), "rest": ds.get(ds.len() / 2)}));
     report.sample(json!({"engine":"E1","paragraph": ps.last(), "rest": ds.last()}));
+    }
     report.set("exhaustive", true);
     report.assume("P and D bounded as stated; plain-English front-end; American dialect");
     report.finish()
